@@ -16,7 +16,7 @@ RULE = ("(1) species: all 118 symbols bare (natural and most-abundant), every ta
         "group | juxtaposition with optional blanks | explicit ' + ' | trailing explicit ' * n'), nesting <= 5 quick / "
         "<= 10 thorough, biased to 'multiplied group directly followed by a group', rendered by the Lean model, both "
         "isotope modes; (3) preprocess scanners vs the real regexes on rendered and mutated / random strings; "
-        "(4) Substance + Substance and Substance * n; (5) histories: a parsed substance grown with add(), later parses of formulas with the same species, + Element of a present / new species, sums, products, add() on a sum — every live object re-read after every step; corpus first. non-trivial = formula with a group and a repeated "
+        "(4) Substance + Substance and Substance * n; (5) histories: a parsed substance grown with add(), later parses of formulas with the same species, + Element of a present / new species, sums, products, add() on a sum — every live object re-read after every step (counts, count column, sum row, composite_mass / component_mass / proportion_norm against the count-weighted sums of its own per-species rows); corpus first. non-trivial = formula with a group and a repeated "
         "species, or species with isotope/charge; distinct = the rendered text + mode")
 ASSUMPTIONS = [
     "documented notation = species (symbol, optional {A}, {+q}, {A+q}; D, T bare or with a full {A+q}; [p] [n] [e]), integer counts >= 1, "
@@ -456,6 +456,22 @@ def counts_of(sub):
     return {k: float(v.proportion) for k, v in sub.components.items()}
 
 
+def totals_of(sub):
+    """(what the object says its totals are, the count-weighted sums of its own per-species data)"""
+    dc = sub.data_components(quantity=False)
+    dd = sub.data_composite(quantity=False)
+    keys = list(sub.components.keys())
+    want = {c: math.fsum(float(dc[k]['count']) * float(dc[k][c]) for k in keys) for c in ("mass", "Z", "N", "e")}
+    got = {c: float(dd['sum'][c]) for c in ("mass", "Z", "N", "e")}
+    got["composite_mass"] = float(sub.composite_mass.value('Da'))
+    got["component_mass"] = float(sub.component_mass.value('Da'))
+    got["proportion_norm"] = float(sub.proportion_norm)
+    want["composite_mass"] = want["component_mass"] = want["mass"]
+    want["proportion_norm"] = math.fsum(float(dc[k]['count']) for k in keys)
+    cnt = {k: float(dc[k]['count']) for k in keys}
+    return got, want, cnt
+
+
 def same_counts(a, b):
     return set(a) == set(b) and all(close(a[k], b[k]) for k in b)
 
@@ -533,8 +549,18 @@ def history_stream(ctx, tbl, n):
                     if not same_counts(got, want):
                         bad = (idx, got, {k: float(v) for k, v in want.items()})
                         break
+                    if got:
+                        # the totals the object carries / reports = count-weighted sums of its per-species data
+                        tg, tw, cnt = totals_of(obj)
+                        if not same_counts(cnt, want):
+                            bad = (idx, {"count column": cnt}, {k: float(v) for k, v in want.items()})
+                            break
+                        wrong = [c for c in tw if not close(tg[c], tw[c])]
+                        if wrong:
+                            bad = (idx, {c: tg[c] for c in wrong}, {c: tw[c] for c in wrong})
+                            break
                 if bad:
-                    ctx.violation("history:%s" % name, "after step %s %s object #%d has counts %s, expected %s (species %s, %s; natural=%s)" %
+                    ctx.violation("history:%s" % name, "after step %s %s object #%d has %s, expected %s (species %s, %s; natural=%s)" %
                                   (name, op, bad[0], bad[1], bad[2], sym, other, natural),
                                   {"stream": "history", "sym": sym, "other": other, "natural": natural, "step": name,
                                    "ops": [st[1] for st in steps]})
